@@ -28,13 +28,14 @@ type Tape struct {
 	Tail         string   `json:"tail"`                    // response to every further request
 	API          string   `json:"api,omitempty"`           // do | get | post | head | header
 	SelfRedirect bool     `json:"self_redirect,omitempty"` // "302 same host" points at the URL just requested
+	GapS         int64    `json:"gap_s,omitempty"`         // simulated seconds between the earlier calls and the judged one (tickets then live 10 minutes, renewable)
 	Warm         []string `json:"warm,omitempty"`          // earlier calls of the same spnego.Client (GET), each against a server answering this kind for ever
 }
 
 // response alphabet of the property's quantifier
 var alphabet = []string{"200", "401-negotiate", "401-reject-token", "401-basic", "302-same", "302-other", "500"}
 
-var hosts = []string{"host.sim.test", "alias.sim.test", "host.sim.test:8080", "host.sim.test.", "nodns.sim.test", "UPPER.sim.test"}
+var hosts = []string{"host.sim.test", "alias.sim.test", "host.sim.test:8080", "host.sim.test.", "nodns.sim.test", "UPPER.sim.test", "far.other.test"}
 var etypes = []int{18, 17, 19, 20, 16, 23}
 
 func pow(b, e int) int {
@@ -59,7 +60,7 @@ func Meta() core.Meta {
 		Rule:       "case = one run: a logged-in real client issues one HTTP call through spnego.Client against a scripted server: every response sequence of length <= 3 (quick) / <= 5 (thorough) over {200, 401 bare Negotiate, 401 Negotiate with reject token, 401 other scheme, 302 same host, 302 other host, 500} followed by each constant tail is enumerated; method {GET, HEAD, POST, PUT}, body size {0, 1, 4 KiB, 1 MiB}, how much of the body the server reads before answering {all, k bytes, none}, explicit or URL-derived SPN (port, trailing dot, CNAME, failed look-up, upper case) and the etype of the service ticket are drawn per case; distinct = distinct (script, tail, method, body class, read class, SPN class, outcome); non-trivial = the server sent at least one challenge or redirect",
 		SweepQuick: scriptsUpTo(3), SweepThorough: scriptsUpTo(5),
 		SeededQuick: 1500, SeededThorough: 60000,
-		WorkloadProbes: []string{"challenged", "challenged-with-body", "early-response-before-body-read", "ever-challenging-tail", "ever-redirecting-tail", "reused-client", "reused-client-after-redirect-limit", "redirect-then-challenge", "spn-derived-via-cname", "spn-derived-lookup-failed", "token-checked-by-acceptor"},
+		WorkloadProbes: []string{"challenged", "challenged-with-body", "early-response-before-body-read", "ever-challenging-tail", "ever-redirecting-tail", "reused-client", "reused-client-after-redirect-limit", "reused-client-after-ticket-expiry", "cross-realm-service", "redirect-then-challenge", "spn-derived-via-cname", "spn-derived-lookup-failed", "token-checked-by-acceptor"},
 		Components: map[string]string{
 			"spnego.Client (Do/Get/Post/Head), SetSPNEGOHeader, setRequestSPN, SPNEGOClient, NewNegTokenInitKRB5, NewKRB5TokenAPREQ, krb5 client, token encoders": "real",
 			"net/http client (redirect policy, cookie jar)": "real",
@@ -144,6 +145,10 @@ func Gen(caseID, tier string) (json.RawMessage, error) {
 		for k := r.Range(1, 3); k > 0; k-- {
 			tp.Warm = append(tp.Warm, r.Pick("302-same", "302-same", "302-other", "401-negotiate", "200", "500"))
 		}
+	}
+	if len(tp.Warm) > 0 && r.Chance(1, 2) {
+		tp.Warm[0] = "401-negotiate" // an earlier call that authenticated: its ticket is in the cache
+		tp.GapS = int64(r.PickInt(1, 300, 599, 601, 660, 3600))
 	}
 	tp.API = "do"
 	switch tp.Method {
